@@ -30,6 +30,7 @@ type FakeChain struct {
 	cfABI     *abi.ABI
 	implABI   *abi.ABI
 	Calls     int
+	FailCalls int // the next FailCalls eth_calls are refused by the node (a transient RPC failure)
 	// CallGate, when set, is consulted before every eth_call is answered (to hold an answer back)
 	CallGate func(to common.Address, method string)
 	// transactions (chaintx.go)
@@ -101,6 +102,11 @@ func (c *FakeChain) CallContract(ctx context.Context, msg ethereum.CallMsg, bloc
 	c.mu.Lock()
 	c.Calls++
 	gate := c.CallGate
+	if c.FailCalls > 0 {
+		c.FailCalls--
+		c.mu.Unlock()
+		return nil, errors.New("fake chain: the node refused the call")
+	}
 	c.mu.Unlock()
 	if *msg.To == c.CF {
 		m, err := c.cfABI.MethodById(msg.Data[:4])
@@ -148,6 +154,12 @@ func (c *FakeChain) CallContract(ctx context.Context, msg ethereum.CallMsg, bloc
 		return m.Outputs.Pack(big.NewInt(ct.Price), big.NewInt(0), big.NewInt(ct.Speed), big.NewInt(ct.Length), ct.Version, ct.ProfitTarget)
 	}
 	return nil, fmt.Errorf("fake chain: implementation.%s not answered", m.Name)
+}
+
+func (c *FakeChain) SetFailCalls(n int) {
+	c.mu.Lock()
+	c.FailCalls = n
+	c.mu.Unlock()
 }
 
 // ---- logs -----------------------------------------------------------------------------------------
